@@ -455,7 +455,7 @@ class World:
     touches only the model (used for dry runs on a cloned model, e.g. to
     evaluate the level-aliasing predicate of an op before executing it)."""
 
-    def __init__(self, env, npool=3, classes=None, sut_on=True):
+    def __init__(self, env, npool=3, classes=None, sut_on=True, ctor_value=None):
         self.env = env
         self.sut_on = sut_on
         self.nodes = []       # SUT objects (parallel to mnodes)
@@ -469,6 +469,7 @@ class World:
         self.allow_k3 = False
         self.del_enabled = False     # 'del node.trait' ops (C08 turns them on)
         self.redefine_enabled = False
+        self.ctor_value = ctor_value
         if sut_on:
             CUR["world"] = self
         classes = classes or []
@@ -519,6 +520,7 @@ class World:
         w.allow_k3 = self.allow_k3
         w.del_enabled = self.del_enabled
         w.redefine_enabled = self.redefine_enabled
+        w.ctor_value = self.ctor_value
         w.pinned_uids = set(getattr(self, "pinned_uids", ()))
         return w
 
@@ -529,8 +531,17 @@ class World:
         n = None
         if self.sut_on:
             klass = NODE_CLASSES[cls]
-            n = klass(uid=uid, eqkey=uid % 2) if cls == "EqNode" else klass(uid=uid)
+            if cls == "EqNode":
+                n = klass(uid=uid, eqkey=uid % 2)
+            elif self.ctor_value is not None and cls in ("PNode", "Node"):
+                # a value handed to the constructor: class-level handlers run (and may
+                # read defaults) while the object is still being constructed
+                n = klass(uid=uid, value=self.ctor_value)
+            else:
+                n = klass(uid=uid)
         m = MNode(uid, cls)
+        if self.ctor_value is not None and cls in ("PNode", "Node"):
+            m.value = self.ctor_value
         self.by_uid[uid] = [n, m]
         if pooled:
             self.nodes.append(n)
